@@ -164,6 +164,11 @@ def gen(rng, idx, tier):
         filters = ["PropagateAnchorsFilter"]
     if stratum == "default" and kern == "aligned" and rng.random() < 0.3:
         categories_with_mark_kerning(rng, ds)
+    if stratum == "default" and varfea and kern == "aligned" and rng.random() < 0.1:
+        # kerning in the non-default masters only: the default master kerns nothing
+        di_ = masters.default_source_index(ds)
+        ds["ufos"][ds["sources"][di_]["ufo"]]["kerning"] = []
+        ds.setdefault("meta", {})["default_master_without_kerning"] = True
     legacy = False
     if stratum in ("default", "ragged_variable_features") and rng.random() < 0.2:
         # the older kern writer, selected through every master's lib (as glyphsLib users do)
@@ -387,6 +392,8 @@ def run(case):
     bump("vfs_compiled")
     if case.get("legacy_kern_writer"):
         bump("vfs_with_legacy_kern_writer_from_lib")
+    if (ds.get("meta") or {}).get("default_master_without_kerning"):
+        bump("vfs_whose_default_master_has_no_kerning")
     bump("ttf_vfs" if is_tt else "cff2_vfs")
     bump("variable_features_path" if case["variableFeatures"] else "merge_path")
     meta = ds.get("meta", {})
